@@ -1,5 +1,6 @@
 import Okane.Drv.Core
 import Okane.Model.ImportCsv
+import Okane.Model.ImportLedger
 /-!
 Driver for C16 (CSV import).  Case line (built by gen/c16.py from its structured configuration, from the
 cells / dates / decimals the harness decoded with the real `csv`, `chrono` and number parser, and from the
@@ -147,32 +148,12 @@ def capsFn (t : List ((String × String) × Matched)) : Captures := fun pat hay 
 
 def tableFn {β} (t : List (String × β)) (s : String) : Option β := (t.find? fun e => e.1 == s).map (·.2)
 
-/-- the funding transaction put before the import output -/
-def fundTxn (account : String) (date : Date) (b : Dec) (commodity : String) : Transaction :=
-  { date := date, clear := .cleared, payee := "fund",
-    posts := [ { account := account, amount := some { amount := .amt b.toPDec commodity } },
-               { account := "Equity:Opening", amount := some { amount := .amt b.negate.toPDec commodity } } ] }
-
 def decFund : Sexp → Option (Option (Date × Dec × String))
   | .list [] => some none
   | .list [d, n, m, s, c] => do
     let d ← decDate d; let v ← decDec3 n m s; let c ← c.str?
     pure (some (d, v, c))
   | _ => none
-
-def doubleEntries (account : String) : List Txn → Outcome ImportErr (List Transaction)
-  | [] => .ok []
-  | t :: rest =>
-    match t.toDoubleEntry account with
-    | .ok x =>
-      match doubleEntries account rest with
-      | .ok xs => .ok (x :: xs)
-      | .err e => .err e
-      | .panic s => .panic s
-      | .fuelOut => .fuelOut
-    | .err e => .err e
-    | .panic s => .panic s
-    | .fuelOut => .fuelOut
 
 /-- model book-keeping over `fund :: entries`, printed canonically -/
 def showProc (entries : List Entry) : String :=
@@ -197,7 +178,7 @@ def report (id : String) (account : String) (fund : Option (Date × Dec × Strin
   | .panic s => s!"{id} import=(panic {Sexp.encode s}) inexact={flag} proc=-"
   | .fuelOut => s!"{id} import=(fuelOut) inexact={flag} proc=-"
   | .ok txns =>
-    match doubleEntries account txns with
+    match ledgerOf account txns with
     | .ok ts =>
       let imp := "(ok" ++ String.join (ts.map fun t => " " ++ (encTxn t).toStr) ++ ")"
       let proc := match fund with
